@@ -183,5 +183,5 @@ def replay(case):
     from ..crashx import Scenario, universe5
     from .c05 import _t
     s = case['scenario']
-    sc = Scenario(s['name'], [_t(o) for o in s['setup']], _t(s['op']), s.get('config'), universe=universe5())
+    sc = Scenario(s['name'], [_t(o) for o in s['setup']], _t(s['op']), s.get('config'), universe=universe5(), thresholds=tuple(s['thresholds']) if s.get('thresholds') else None)
     return _one((sc, case['fault_index'], case['variant'], case['call']))[0]
